@@ -11,6 +11,7 @@
    into the flow that goes round the loop again (the 'continue-join' flow the back edge starts
    from); breaks and continues inside its else clause belong to the loop around it.
    [seenx c s r] = the alternatives read site r is told.
+   Exits inside a loop test, for-targets or an except type (not expressible in Python) are ignored.
 
    On commands without break/continue [anx]/[seenx] are [an]/[seen] of Model/Reach.v
    (Proofs/ReachXProofs.v, anx_nobc / seenx_nobc). *)
@@ -42,15 +43,15 @@ Fixpoint anx (c : cmd) (s : aenv) : aenv * aenv * aenv :=
   | While t b e =>
       (* the back edge starts from the join of the body end and its continues; its names are
          computed with the back edge skipped *)
-      let r1 := anx b (an t s) in
+      let r1 := anx b (nrm (anx t s)) in
       let H := join s (join (nrm r1) (cnt r1)) in
-      let r2 := anx b (an t H) in
-      let re := anx e (an t H) in                 (* while-else: parents [test] *)
+      let r2 := anx b (nrm (anx t H)) in
+      let re := anx e (nrm (anx t H)) in          (* while-else: parents [test] *)
       (join (nrm re) (brk r2), brk re, cnt re)    (* join: parents [orelse] + breaks *)
   | For tg b e =>
-      let r1 := anx b (an tg s) in
+      let r1 := anx b (nrm (anx tg s)) in
       let H := join s (join (nrm r1) (cnt r1)) in
-      let r2 := anx b (an tg H) in
+      let r2 := anx b (nrm (anx tg H)) in
       let re := anx e (join s (join (nrm r2) (cnt r2))) in   (* for-else: parents [cur, back] *)
       (join (nrm re) (brk r2), brk re, cnt re)
   | Try _ b _ hs e f =>
@@ -65,7 +66,7 @@ with anx_h (hs : hlist) (hin : aenv) (acc : aenv * aenv * aenv) : aenv * aenv * 
   match hs with
   | HNil => acc
   | HCons ty nm hb r =>
-      let rhb := anx hb (bind_opt_a nm (an ty hin)) in
+      let rhb := anx hb (bind_opt_a nm (nrm (anx ty hin))) in
       anx_h r hin (join (nrm acc) (nrm rhb), join (brk acc) (brk rhb), join (cnt acc) (cnt rhb))
   end.
 
@@ -76,14 +77,14 @@ Fixpoint seenx (c : cmd) (s : aenv) (r : site) : list alt :=
   | Seq a b => seenx a s r ++ seenx b (nrm (anx a s)) r
   | Branch a b => seenx a s r ++ seenx b s r
   | While t b e =>
-      let r1 := anx b (an t s) in
+      let r1 := anx b (nrm (anx t s)) in
       let H := join s (join (nrm r1) (cnt r1)) in
-      seen t H r ++ seenx b (an t H) r ++ seenx e (an t H) r
+      seenx t H r ++ seenx b (nrm (anx t H)) r ++ seenx e (nrm (anx t H)) r
   | For tg b e =>
-      let r1 := anx b (an tg s) in
+      let r1 := anx b (nrm (anx tg s)) in
       let H := join s (join (nrm r1) (cnt r1)) in
-      let r2 := anx b (an tg H) in
-      seen tg H r ++ seenx b (an tg H) r ++ seenx e (join s (join (nrm r2) (cnt r2))) r
+      let r2 := anx b (nrm (anx tg H)) in
+      seenx tg H r ++ seenx b (nrm (anx tg H)) r ++ seenx e (join s (join (nrm r2) (cnt r2))) r
   | Try _ b _ hs e f =>
       let rb := anx b s in
       let hin := join s (nrm rb) in
@@ -95,7 +96,7 @@ with seenx_h (hs : hlist) (hin : aenv) (r : site) : list alt :=
   match hs with
   | HNil => []
   | HCons ty nm hb rest =>
-      seen ty hin r ++ seenx hb (bind_opt_a nm (an ty hin)) r ++ seenx_h rest hin r
+      seenx ty hin r ++ seenx hb (bind_opt_a nm (nrm (anx ty hin))) r ++ seenx_h rest hin r
   end.
 
 (* what lint / assist / location derive from it (as in Model/Reach.v) *)
@@ -119,4 +120,40 @@ with nobc_h (hs : hlist) : bool :=
   match hs with
   | HNil => true
   | HCons ty _ hb r => nobc ty && nobc hb && nobc_h r
+  end.
+
+(* any abrupt exit *)
+Fixpoint has_exit (c : cmd) : bool :=
+  match c with
+  | Skip | Bind _ _ | Read _ _ => false
+  | Exit _ => true
+  | Seq a b | Branch a b => has_exit a || has_exit b
+  | While t b e | For t b e => has_exit t || has_exit b || has_exit e
+  | Try _ b _ hs e f => has_exit b || has_exit_h hs || has_exit e || has_exit f
+  end
+with has_exit_h (hs : hlist) : bool :=
+  match hs with
+  | HNil => false
+  | HCons ty _ hb r => has_exit ty || has_exit hb || has_exit_h r
+  end.
+
+(* The fragment of C02 with loop exits: return, break and continue anywhere except under a try
+   statement that has a finally clause (K3 family: the finally clause runs with the state at the
+   exit) and in a finally clause; no free `raise` (an exception raised in the middle of a try body
+   reaches the handler with a state the analysis does not join, K-family as well); tests,
+   for-targets and except types are exit free. *)
+Fixpoint okx (c : cmd) : bool :=
+  match c with
+  | Skip | Bind _ _ | Read _ _ => true
+  | Exit k => match k with KExc _ => false | _ => true end
+  | Seq a b | Branch a b => okx a && okx b
+  | While t b e | For t b e => okx t && negb (has_exit t) && okx b && okx e
+  | Try _ b _ hs e f =>
+      okx b && okx_h hs && okx e && okx f && negb (has_exit f) &&
+      (is_skip f || negb (has_exit b || has_exit_h hs || has_exit e))
+  end
+with okx_h (hs : hlist) : bool :=
+  match hs with
+  | HNil => true
+  | HCons ty _ hb r => okx ty && negb (has_exit ty) && okx hb && okx_h r
   end.
